@@ -80,7 +80,7 @@ func (nr *nativeRunner) build(g *Engine) error {
 		return nr.err
 	}
 	nr.built = true
-	nr.workDir = filepath.Join(verifDir, "work", fmt.Sprintf("replay-%d", os.Getpid()))
+	nr.workDir = filepath.Join(verifDir, "work", fmt.Sprintf("replay-%d-%v", os.Getpid(), nr.race))
 	os.MkdirAll(nr.workDir, 0o755)
 	// registry of harness entry points
 	var names []string
@@ -127,18 +127,18 @@ func (nr *nativeRunner) cleanup() {
 	}
 }
 
-func (nr *nativeRunner) run(tape *replayTape) (*nativeOutcome, error) {
+func (nr *nativeRunner) run(tape *replayTape, extraEnv ...string) (*nativeOutcome, error) {
 	tp := filepath.Join(nr.workDir, fmt.Sprintf("tape-%d.json", time.Now().UnixNano()))
 	b, _ := json.Marshal(tape)
 	os.WriteFile(tp, b, 0o644)
 	defer os.Remove(tp)
-	return runTapeFile(nr.bin, tp)
+	return runTapeFile(nr.bin, tp, extraEnv...)
 }
 
-func runTapeFile(bin, tp string) (*nativeOutcome, error) {
+func runTapeFile(bin, tp string, extraEnv ...string) (*nativeOutcome, error) {
 	cmd := exec.Command(bin, "-test.run", "^TestVReplay$", "-test.v", "-test.timeout", "60s")
 	cmd.Dir = repoDir
-	cmd.Env = append(os.Environ(), "VERIF_TAPE="+tp)
+	cmd.Env = append(append(os.Environ(), "VERIF_TAPE="+tp), extraEnv...)
 	var buf bytes.Buffer
 	cmd.Stdout = &buf
 	cmd.Stderr = &buf
@@ -151,6 +151,12 @@ func runTapeFile(bin, tp string) (*nativeOutcome, error) {
 			}
 			return &o, nil
 		}
+	}
+	if strings.Contains(buf.String(), "all goroutines are asleep - deadlock") {
+		return &nativeOutcome{Fail: "watchdog: Go runtime reports: all goroutines are asleep - deadlock"}, nil
+	}
+	if strings.Contains(buf.String(), "WARNING: DATA RACE") {
+		return &nativeOutcome{Fail: "race detector: DATA RACE"}, nil
 	}
 	return nil, fmt.Errorf("native replay produced no outcome (%v): %s", err, tail(buf.String(), 1500))
 }
@@ -471,16 +477,30 @@ func (g *Engine) confirmViolation(nr *nativeRunner, harness string, params map[s
 		tries = 60
 	}
 	var last *nativeOutcome
+	runner := nr
+	if v.Kind == "race" {
+		// data races are replayed under the Go race detector
+		rr := &nativeRunner{race: true}
+		if err := rr.build(g); err == nil {
+			runner = rr
+			defer rr.cleanup()
+		}
+	}
 	for i := 0; i < tries; i++ {
-		out, err := nr.run(v.tape)
+		var env []string
+		if concurrent && i > 0 {
+			env = []string{"VERIF_JITTER=1"}
+		}
+		out, err := runner.run(v.tape, env...)
 		if err != nil {
 			return err.Error(), false
 		}
 		last = out
-		if out.AssumeFailed {
-			continue
-		}
 		switch v.Kind {
+		case "race":
+			if strings.Contains(out.Fail, "DATA RACE") {
+				return fmt.Sprintf("reproduced natively under the race detector (run %d)", i+1), true
+			}
 		case "assert":
 			for _, f := range out.Failed {
 				if f == v.Label {
